@@ -336,4 +336,60 @@ def r6_exports(a, tier):
     return rep
 
 
-RULES = [r_chain, r1_registry, r2_fields, r3_string_images, r4_cycles, r5_state_keys, r6_exports]
+def r7_source_literals(a, tier):
+    import contextlib
+
+    from ..minieval import Obj, Unsupported
+    from ..modelinterp import Hook, ModelInterp
+    rep = RuleReport(
+        'C14.R7',
+        'model source reads back: fold() (tatsu/util/indent.py), which writes every field of a node in repr-as-source form, '
+        'interpreted for tuples of 0, 1, 2 and 9 elements, lists, dicts and scalars in both its one-line and its multi-line '
+        'layout, produces text that ast.literal_eval reads back as the same value of the same type - a tuple of one element keeps '
+        'its comma (rules=(Rule(...),), keywords=("if",))',
+        floor=16,
+    )
+    fn = a.p.func('tatsu.util.indent.fold')
+    values = [(), ('if',), ('a', 'b'), tuple(f'k{i}' for i in range(9)), ['x'], [], {'k': 1}, 'text', 7, None]
+    for v in values:
+        for fits in (True, False):
+            lines: list[str] = []
+
+            class IM(Obj):
+                pass
+            im = IM()
+
+            def methods(recv, name, args, kwargs, lines=lines, fits=fits, im=im):
+                if recv is im:
+                    if name == 'print':
+                        lines.append(' '.join(str(x) for x in args))
+                        return None
+                    if name == 'fitsfmt':
+                        return fits
+                    if name == 'indent':
+                        return contextlib.nullcontext()
+                    if name == 'printed_text':
+                        return '\n'.join(lines)
+                return NotImplemented
+            it = ModelInterp(a, {'IndentPrintMixin': Hook(lambda **_k: im), 'isiter': Hook(lambda o: isinstance(o, (list, set, tuple, dict))),
+                                 'typename': Hook(lambda o: type(o).__name__ if o is not None else 'None')})
+            it.methods = methods
+            try:
+                text = it.call_fn(fn, ['x=', v])
+            except Unsupported as e:
+                raise AnalysisError(f'cannot interpret {fn.qualname}: {e}') from e
+            got, ok = '<unreadable>', False
+            try:
+                got = ast.literal_eval(str(text).split('=', 1)[1].strip())
+                ok = got == v and type(got) is type(v)
+            except (SyntaxError, ValueError, IndexError):
+                pass
+            rep.add({'value': repr(v)[:40], 'layout': 'one line' if fits else 'multi-line', 'written': str(text)[:60], 'reads_back_as': repr(got)[:40], 'ok': ok})
+            if not ok:
+                rep.fail(fn.qualname, f'fold:{type(v).__name__}:{len(v) if hasattr(v, "__len__") else "-"}:{"1" if fits else "n"}',
+                         f'fold() writes {v!r} as `{str(text)[:70]}` ({"one-line" if fits else "multi-line"} layout), which reads back as {got!r}: '
+                         f'generated model source with a one-element rules= or keywords= tuple does not load (or loads other keywords)', fn.loc)
+    return rep
+
+
+RULES = [r_chain, r1_registry, r2_fields, r3_string_images, r4_cycles, r5_state_keys, r6_exports, r7_source_literals]
